@@ -1,6 +1,7 @@
 package symx
 
 import (
+	"math/big"
 	"crypto/sha256"
 	"crypto/sha512"
 	"fmt"
@@ -49,7 +50,7 @@ var interpPkgs = map[string]bool{
 	"github.com/boljen/go-bitmap": true, "github.com/dchest/siphash": true, "internal/filepathlite": true,
 	"io/fs": true, "internal/oserror": true, "time": true, "io/ioutil": true, "os": true, "syscall": true,
 	"internal/byteorder": true, "net/http": true, "net/url": true, "net/textproto": true, "maps": true, "iter": true,
-	"container/list": true, "github.com/folbricht/tempfile": true, "github.com/hanwen/go-fuse/v2/fuse": true, "vendor/golang.org/x/net/http/httpguts": true, "vendor/golang.org/x/net/idna": true, "net/http/internal/ascii": true, "net/http/internal": true, "mime": true, "net": true, "net/netip": true, "vendor/golang.org/x/net/http/httpproxy": true, "hash/crc32": false, "archive/tar": true, "internal/godebug": false,
+	"container/list": true, "github.com/folbricht/tempfile": true, "github.com/spf13/pflag": true, "github.com/hanwen/go-fuse/v2/fuse": true, "vendor/golang.org/x/net/http/httpguts": true, "vendor/golang.org/x/net/idna": true, "net/http/internal/ascii": true, "net/http/internal": true, "mime": true, "net": true, "net/netip": true, "vendor/golang.org/x/net/http/httpproxy": true, "hash/crc32": false, "archive/tar": true, "internal/godebug": false,
 }
 
 // Packages whose init functions are run.
@@ -1131,6 +1132,16 @@ func (i *interpreter) absLoc() *value {
 	return ps.absLoc
 }
 
+// absInstant splits a concrete abstract instant into (seconds, nanoseconds) with floor division.
+func absInstant(st structure) (*big.Int, *big.Int) {
+	hi, _ := st[0].(uint64)
+	lo, _ := st[1].(int64)
+	v := new(big.Int).Lsh(big.NewInt(int64(hi)), 64)
+	v.Add(v, new(big.Int).SetUint64(uint64(lo)))
+	q, r := new(big.Int).DivMod(v, big.NewInt(1000000000), new(big.Int))
+	return q, r
+}
+
 func (i *interpreter) isAbsTime(t value) (structure, bool) {
 	st, ok := t.(structure)
 	if !ok || len(st) != 3 {
@@ -1142,9 +1153,26 @@ func (i *interpreter) isAbsTime(t value) (structure, bool) {
 
 func init() {
 	reg("time.Unix", func(i *interpreter, fr *frame, fn *ssa.Function, a []value) value {
-		T := types.Typ[types.Int64]
-		nanos := i.binop(fr, token.ADD, T, T, i.binop(fr, token.MUL, T, T, a[0], int64(1000000000)), a[1])
-		return structure{uint64(0), nanos, i.absLoc()}
+		// instant = sec*10^9 + nsec as a 128-bit two's complement number {hi: wall, lo: ext}; instants
+		// that differ by a multiple of 2^64 ns (584 years) stay different, as they do in time.Time
+		c := i.ps.ctx
+		_, ss := a[0].(sym)
+		_, ns := a[1].(sym)
+		if !ss && !ns {
+			v := new(big.Int).Mul(big.NewInt(a[0].(int64)), big.NewInt(1000000000))
+			v.Add(v, big.NewInt(a[1].(int64)))
+			m := new(big.Int).And(v, new(big.Int).SetUint64(^uint64(0)))
+			hi := new(big.Int).Rsh(v, 64) // arithmetic shift: floor division
+			return structure{uint64(hi.Int64()), int64(m.Uint64()), i.absLoc()}
+		}
+		if !ss && a[0].(int64) == 0 {
+			// time.Unix(0, n): hi is the sign extension of n
+			n := i.term(a[1])
+			hi := c.Bin(smt.OpBvAshr, n, c.Const(63, 64))
+			return structure{lower(hi, types.Uint64), a[1], i.absLoc()}
+		}
+		wide := c.Bin(smt.OpBvAdd, c.Bin(smt.OpBvMul, c.Sext(i.term(a[0]), 128), c.Sext(c.Const(1000000000, 64), 128)), c.Sext(i.term(a[1]), 128))
+		return structure{lower(c.Extract(wide, 127, 64), types.Uint64), lower(c.Extract(wide, 63, 0), types.Int64), i.absLoc()}
 	})
 	timeM := func(name string, f func(i *interpreter, fr *frame, st structure, a []value) value) {
 		reg("(time.Time)."+name, func(i *interpreter, fr *frame, fn *ssa.Function, a []value) value {
@@ -1155,29 +1183,21 @@ func init() {
 			return f(i, fr, st, a)
 		})
 	}
-	T := types.Typ[types.Int64]
 	timeM("UnixNano", func(i *interpreter, fr *frame, st structure, a []value) value { return st[1] })
 	timeM("Unix", func(i *interpreter, fr *frame, st structure, a []value) value {
 		if _, ok := st[1].(sym); ok {
 			i.ps.note("time.Time.Unix() on a symbolic instant: seconds kept as an uninterpreted quotient")
 			return lower(i.ps.ctx.App("unix_seconds", 64, i.term(st[1])), types.Int64)
 		}
-		n := st[1].(int64)
-		s := n / 1000000000
-		if n%1000000000 < 0 {
-			s--
-		}
-		return s
+		q, _ := absInstant(st)
+		return q.Int64()
 	})
 	timeM("Nanosecond", func(i *interpreter, fr *frame, st structure, a []value) value {
 		if _, ok := st[1].(sym); ok {
 			return lower(i.ps.ctx.Extract(i.ps.ctx.App("unix_nanos", 64, i.term(st[1])), 63, 0), types.Int)
 		}
-		n := st[1].(int64) % 1000000000
-		if n < 0 {
-			n += 1000000000
-		}
-		return int(n)
+		_, r := absInstant(st)
+		return int(r.Int64())
 	})
 	timeM("IsZero", func(i *interpreter, fr *frame, st structure, a []value) value { return false })
 	cmp := func(op token.Token) func(i *interpreter, fr *frame, st structure, a []value) value {
@@ -1186,7 +1206,18 @@ func init() {
 			if !ok {
 				i.abort(outUnsupported, "comparison of an abstract instant with a wall-clock time")
 			}
-			return i.binop(fr, op, T, T, st[1], o[1])
+			c := i.ps.ctx
+			hiA, hiB := i.term(st[0]), i.term(o[0])
+			loA, loB := i.term(st[1]), i.term(o[1])
+			eq := c.And(c.Eq(hiA, hiB), c.Eq(loA, loB))
+			lt := c.Or(c.Cmp(smt.OpBvSlt, hiA, hiB), c.And(c.Eq(hiA, hiB), c.Cmp(smt.OpBvUlt, loA, loB)))
+			switch op {
+			case token.EQL:
+				return lower(eq, types.Bool)
+			case token.LSS:
+				return lower(lt, types.Bool)
+			}
+			return lower(c.And(c.Not(eq), c.Not(lt)), types.Bool)
 		}
 	}
 	timeM("Equal", cmp(token.EQL))
